@@ -9,6 +9,7 @@ Specification: `PdfVerif.Spec.PageTree`.
 Only property theorems live here (helper lemmas: `Lemmas/PageTree.lean`).
 -/
 import PdfVerif.Lemmas.PageOrder
+import PdfVerif.Lemmas.PageSelect
 
 namespace PdfVerif.Props.C04
 open PdfVerif PdfVerif.PageTree PdfVerif.Gen.PageTree PdfVerif.Gen.Utils
@@ -341,6 +342,85 @@ example : getPagesS [0] 3 0 [10, 11] (some Err.objectNotFound) = ([10], some Err
 
 example : getPages [5, 1] 2 0 [10, 11, 12, 13, 14, 15] = [11] := by decide
 example : getPages [] 0 0 [10, 11, 12] = [10, 11, 12] := by decide
+
+/-- **Selection through the Python interface.** For `page_numbers` = `None` or *any* container of
+integers (empty, with duplicates, in any order, with negative numbers or numbers beyond the last
+page) and every `maxpages ≥ 0`, `get_pages` — and with it `extract_text`, `extract_pages`,
+`extract_text_to_fp`, which pass both arguments on unchanged — yields exactly the pages whose
+zero-based index is wanted (`None`/empty: all) and below the limit (0: none), in order; a pending
+exception of `create_pages` is raised iff the failing page's index is below the limit. -/
+theorem C04_select_py {α : Type} (pagenos : Option (List Int)) (maxpages : Int) (hmp : 0 ≤ maxpages)
+    (pages : List α) (e : Option Err) :
+    getPagesPy pagenos maxpages 0 pages e =
+      (specSelectPy pagenos maxpages pages,
+        if maxpages = 0 ∨ (pages.length : Int) < maxpages then e else none) := by
+  obtain ⟨m, rfl⟩ := Int.eq_ofNat_of_zero_le hmp
+  rw [select_stream_py pagenos m pages e 0 (by omega), specSelectPy_nat]
+  have hc : pastEnd m 0 pages.length ↔ ((m : Int) = 0 ∨ (pages.length : Int) < (m : Int)) := by
+    unfold pastEnd; omega
+  simp only [hc]
+
+/-- Duplicates, order and the kind of container do not matter: two containers with the same
+members select the same pages (for every `maxpages`, negative ones included). -/
+theorem C04_select_members {α : Type} (l1 l2 : List Int) (h : ∀ z, z ∈ l1 ↔ z ∈ l2) (maxpages : Int)
+    (pages : List α) (e : Option Err) :
+    getPagesPy (some l1) maxpages 0 pages e = getPagesPy (some l2) maxpages 0 pages e := by
+  apply getPagesPy_congr
+  · simp only [pagenosTruthy]
+    cases l1 with
+    | nil =>
+      cases l2 with
+      | nil => rfl
+      | cons y ys => exact absurd ((h y).mpr (by simp)) (by simp)
+    | cons x xs =>
+      cases l2 with
+      | nil => exact absurd ((h x).mp (by simp)) (by simp)
+      | cons y ys => rfl
+  · intro i
+    simp only [pagenoIn]
+    by_cases h1 : (i : Int) ∈ l1
+    · have h2 := (h _).mp h1; simp [h1, h2]
+    · have h2 : (i : Int) ∉ l2 := fun h2 => h1 ((h _).mpr h2); simp [h1, h2]
+
+/-- `page_numbers=None` and an empty container are the same request. -/
+theorem C04_select_none_empty {α : Type} (maxpages : Int) (pages : List α) (e : Option Err) :
+    getPagesPy none maxpages 0 pages e = getPagesPy (some []) maxpages 0 pages e :=
+  getPagesPy_congr none (some []) maxpages rfl (fun _ => rfl) pages 0 e
+
+/-- A non-empty container none of whose members is a page index (negative, or beyond the last
+page) selects nothing — it does *not* fall back to "all pages". -/
+theorem C04_select_out_of_range {α : Type} (l : List Int) (hne : l ≠ []) (maxpages : Int) (hmp : 0 ≤ maxpages)
+    (pages : List α) (e : Option Err) (hout : ∀ z ∈ l, z < 0 ∨ (pages.length : Int) ≤ z) :
+    (getPagesPy (some l) maxpages 0 pages e).1 = [] := by
+  rw [C04_select_py (some l) maxpages hmp pages e]
+  simp only [specSelectPy, List.map_eq_nil_iff, List.filter_eq_nil_iff]
+  intro pi hpi
+  have hlt : pi.2 < pages.length := by
+    have := List.snd_lt_of_mem_zipIdx hpi
+    simpa using this
+  have hemp : l.isEmpty = false := by cases l with
+    | nil => exact absurd rfl hne
+    | cons _ _ => rfl
+  have hnot : (pi.2 : Int) ∉ l := by
+    intro hm
+    rcases hout _ hm with h | h <;> omega
+  simp [wanted, hemp, hnot]
+
+/-- Outside the property's domain but part of the code: a negative `maxpages` acts like 1. -/
+theorem C04_select_negative_limit {α : Type} (pagenos : Option (List Int)) (maxpages : Int) (hneg : maxpages < 0)
+    (p : α) (ps : List α) (e : Option Err) :
+    getPagesPy pagenos maxpages 0 (p :: ps) e = (if wanted pagenos 0 then [p] else [], none) := by
+  have hb : select_break maxpages ((0 : Nat) : Int) = true := by
+    simp only [select_break, Bool.and_eq_true, bne_iff_ne, ne_eq, decide_eq_true_eq]
+    omega
+  simp only [getPagesPy, hb, if_true, select_yield_py]
+
+example : getPagesPy (some [5, 1, 1, -3, 40]) 2 0 [10, 11, 12, 13, 14, 15] (some Err.objectNotFound)
+    = ([11], none) := by decide
+example : getPagesPy (some [-1]) 0 0 [10, 11, 12] none = ([], none) := by decide
+example : getPagesPy (some []) 0 0 [10, 11, 12] none = ([10, 11, 12], none) := by decide
+example : getPagesPy none (-4) 0 [10, 11, 12] none = ([10], none) := by decide
+example : specSelectPy (some [2, 0, 2, 7]) 0 [10, 11, 12] = [10, 12] := by decide
 
 /-- The pinned `get_pages` (`continue` before the limit test) on `page_numbers = {5}`,
 `maxpages = 2`: page 5 is yielded although its index is not below the limit. -/
